@@ -21,6 +21,7 @@ macro_rules! props {
 props! {
     "C09" => props::c09::C09,
     "C10" => props::c10::C10,
+    "C12" => props::c12::C12,
     "C13" => props::c13::C13,
     "C14" => props::c14::C14,
     "C15" => props::c15::C15,
